@@ -107,6 +107,36 @@ CHECKS["C20"] = ("model_checking",
     "Trusted: TLC; the constructor list is re-derived from response.rs on each run and unknown constructors are "
     "reported as uncovered.", "4 C20")
 
+CHECKS["C04"] = ("model_checking",
+    "TLA+ machine Exchange.tla (one action per await-delimited step of handle_http_conn_once) model-checked by TLC; "
+    "random request histories against a real server, servlin's hook log validated step by step against the machine",
+    "Exchange.tla is a deterministic step function over scenarios (requests, handler answers, client faults); "
+    "MC_Exchange runs every scenario of a bounded family and checks CallCount, Order, ClosedIsFinal, one final response "
+    "per request, termination, in every intermediate state. Binding: 1.5k (quick) / 30k (thorough) random histories of "
+    "1..12 requests under four client delivery schedules against HttpServerBuilder::spawn; the hook log (request "
+    "read, handler call with body kind/length/digest, response written, connection end) must be exactly the sequence "
+    "of observables the machine emits, and the client's transcript must equal the responses written.",
+    "Trusted: TLC, hook placement (sequence numbers assigned under one mutex inside servlin), loopback TCP. When the "
+    "server closes with client bytes unread the transcript only has to be a prefix (TCP reset may drop bytes).", "4 C04")
+CHECKS["C09"] = ("model_checking",
+    "Exchange.tla with limits as decimal digit tuples (MemBound, DiskBound, Intact invariants) model-checked by TLC; "
+    "boundary cross product of uploads against a real server validated against the machine",
+    "The spec never computes M+1 on machine integers (DecSucc on digit tuples), so the 2^64-1 boundary is visible. "
+    "The full cross product S x M x L x declared x Expect x cache-dir (2.2k scenarios incl. 2^63, 2^64-1) runs against "
+    "servers built per small_body_len; handler calls (body variant, length, digest), interim and final status codes, "
+    "bytes copied to disk (hook) must match the machine's observables.",
+    "Trusted: TLC, hooks, 31-bit digests. Lengths above 70002 are only declared, never sent. With no cache directory "
+    "413 or 500 is accepted (free zone).", "4 C09")
+CHECKS["C10"] = ("fault_enumeration",
+    "Exchange.tla NoLeak invariant model-checked at every step of the multi-step upload (incl. disk-write failure, "
+    "removed cache dir, client reset); upload fault enumeration against a real server with the cache directory listed "
+    "after the hooked connection end",
+    "Fault enumeration: client disconnect at offset classes x over-limit x handler outcome after receipt x removed "
+    "cache dir x 1..4 concurrent uploads; after the hook log shows ConnEnd for every connection of a batch the cache "
+    "directory must be empty. The model covers the same crash points plus disk-write failure.",
+    "Trusted: hook H5 (ConnEnd emitted by a drop guard after the request and its temp file are dropped). Disk-write "
+    "failure is covered by the model only.", "4 C10")
+
 NOT_APPLICABLE = {}
 
 
